@@ -160,4 +160,42 @@ def run(db, chk):
     pp = calls(ps, "ObjectWriter::put_part")
     ok = len(pp) >= 1 and all(any(x[0] in ("call", "via") and "mem::take" in (x[1] or "") for x in c.op_origins(t["args"][1], transparent=lambda t: True)) for _, t in pp)
     chk.ob(R4, "final-part-is-remaining-buffer", ok, "the final part uploaded on shutdown is the remaining buffer (mem::take)", ps.loc())
+    # poll_write takes the caller's bytes from the front, in order: the first piece buffered is buf[..n]; any further piece
+    # taken in the same call must start where the previous one ended (a slice of `buf` with a start index), never again at 0
+    pw = db.one(r"^<object_writer::ObjectWriter as tokio::io::AsyncWrite>::poll_write$", file=FILE)
+    chk.analysed(pw)
+    wc = pw.cfg
+    pieces = []
+    for b, t in calls(pw, "Vec::<T, A>::extend_from_slice", "Vec::<T>::extend_from_slice"):
+        o = wc.op_origins(t["args"][1], transparent=lambda t: True)
+        if ("arg", 3) not in o:
+            continue
+        kinds = set()
+        # the Index call that produced this very piece: walk the argument's single definitions back to it
+        p = op_place(t["args"][1])
+        hops = 0
+        while p is not None and hops < 8:
+            hops += 1
+            d = wc.single_def(p[0])
+            if not d:
+                break
+            if d[0] == "call":
+                if has_name(d[2], "ops::Index<I> for [T]>::index", "Index<I>>::index"):
+                    full = d[2].get("full") or ""
+                    for k in ("RangeToInclusive", "RangeTo", "RangeFrom", "RangeFull", "RangeInclusive", "Range"):
+                        if "ops::%s<" % k in full or "ops::%s>" % k in full or full.endswith("ops::%s" % k):
+                            kinds.add(k)
+                            break
+                break
+            rv = d[3]["rv"]
+            p = rv.get("place") if rv["r"] == "ref" else (op_place(rv["op"]) if rv["r"] == "use" else None)
+        pieces.append((b, t, kinds))
+    chk.floor(R4, "pieces of the caller's buffer taken by poll_write", len(pieces), 1)
+    first = [p for p in pieces if all(wc.dominates(p[0], q[0]) for q in pieces)]
+    okf = len(first) == 1
+    rest = [p for p in pieces if not first or p is not first[0]]
+    okr = all(p[2] and p[2] <= {"RangeFrom", "Range", "RangeInclusive"} for p in rest)
+    chk.ob(R4, "write-takes-bytes-in-order", okf and okr,
+           "poll_write buffers %d piece(s) of the caller's slice; the first dominates the others (%s); later pieces start at an explicit offset, not at 0: %s" % (
+               len(pieces), okf, [sorted(p[2]) for p in rest] or "no later piece"), pw.loc())
     chk.sample({"visibility_points": {"put": [c["line"] for _, c in put_sites], "complete": [c["line"] for _, c in complete_sites], "abort": [c["line"] for _, c in abort_sites]}})
